@@ -2630,6 +2630,12 @@ func (db *DB) checkpointWithExecutor(ctx context.Context, mode string, exec *syn
 			s.checkpointMode = mode
 			s.lastSyncedWALOffset = exec.state.lastSyncedWALOffset
 		})
+	// The read lock is dropped around the PRAGMA. Frames that are committed in
+	// that window can be checkpointed and truncated away by another connection
+	// before we look at the WAL again, so "we had copied everything up to the
+	// end of the WAL" stops being a reason to expect a truncation until a
+	// later sync establishes it again.
+	exec.state.syncedToWALEnd = false
 	if _, err := db.execCheckpoint(ctx, mode); err != nil {
 		return false, err
 	}
